@@ -124,6 +124,47 @@ def sound_overlap(make_elem, classes, required, v, supplied):
     return True
 
 
+def sound_inherited(m, use_base_first, h_inner, h_xs, h_f, h_s, x):
+    """properties a SUBCLASS adds to (or inherits from) an already used base model: every attribute conforms to its annotation"""
+    from vf.common import Object, ObjectMeta, Property, Array, Number, Integer, String, verdict, accepts, NotPassed
+    from statham.schema.elements.meta import ObjectClassDict
+
+    Inner = _inner(m)
+    Base = Object.inline("Base", properties={"n_": Property(Integer(), source="n"), "w": Property(Inner)})
+    if use_base_first:
+        accepts(Base, {"n": 1})
+        accepts(Base, {"w": {"x": m}})
+    cd = ObjectClassDict()
+    cd["inner"] = Property(Inner)
+    cd["xs"] = Property(Array(Inner))
+    cd["f"] = Property(Number(default=1.5))
+    cd["s"] = Property(String(default="d"))
+    Child = ObjectMeta("Child", (Base,), cd)
+    data = {"n": x, "w": {"x": m + 1}}
+    if h_inner:
+        data["inner"] = {"x": x}
+    if h_xs:
+        data["xs"] = [{"x": x}, {"x": m}]
+    if h_f:
+        data["f"] = x
+    if h_s:
+        data["s"] = "s"
+    ok, r = verdict(Child, data)
+    if not ok:
+        return True
+    classes = {"Inner": Inner}
+    for py, prop in Child.properties.items():
+        tp = eval_annotation(prop.annotation, classes)
+        if not hasattr(r, py):
+            return False
+        val = getattr(r, py)
+        if not conform(val, tp):
+            return False
+        if not prop.annotation.startswith("Maybe[") and isinstance(val, NotPassed):
+            return False
+    return True
+
+
 def reached(make_elem, required, v, supplied):
     from vf.common import Object, Property, accepts, jcopy
 
@@ -243,6 +284,12 @@ return sound(make_elem, _cls, rq, v, sup, ("p q" if ren else None))
 """
         hs.append(mk(f"c19_prop_{name}", f"{hargs}, rq: bool, sup: bool, ren: bool, v: Union[int, None, List[int], Dict[str, int]]",
                      pre + OVPRE, body, timeout=150, group="defaulted", covers=f"{expr} (default valid by construction)"))
+    hs.append(mk("c19_inherited", "m: int, ubf: bool, h1: bool, h2: bool, h3: bool, h4: bool, x: int", [], "return sound_inherited(m, ubf, h1, h2, h3, h4, x)",
+                 timeout=200, group="property", covers="properties added by / inherited into a subclass of an (optionally already used) base model: Inner, List[Inner], defaulted Number and String"))
+    hs.append(mk("c19_inherited__reach", "m: int, ubf: bool, h1: bool, h2: bool, h3: bool, h4: bool, x: int", [], """
+from vf.common import verdict
+return not (ubf and h1 and h2 and x >= m and sound_inherited(m, ubf, h1, h2, h3, h4, x))
+""", kind="witness", timeout=60, group="property"))
     hs.append(mk("c19__reach_supplied", "m: int, v: Union[int, None]", [], """
 def make_elem():
     return Integer(minimum=m)
